@@ -6,7 +6,7 @@ for l in open('/verif/properties.jsonl'):
     p = json.loads(l)
     if p['id'] == pid:
         break
-wt = "/tmp/wt_%s" % pid
+wt = "/tmp/wt_%s%s" % (pid, sys.argv[2] if len(sys.argv) > 2 else "")
 print(f"""You are helping to evaluate a verification effort by seeding ONE realistic defect into a Python library.
 
 The library is AlexanderFabisch/distance3d (pure-Python/numba 3D computational geometry: GJK/EPA/MPR collision and distance,
